@@ -179,10 +179,12 @@ pub fn read_authority_lock_record(
     data_dir: impl AsRef<Path>,
 ) -> Result<Option<AuthorityLockRecord>, String> {
     let path = authority_lock_path(data_dir);
-    let Ok(contents) = fs::read_to_string(&path) else {
+    // Bytes, not a string: a record cut inside a multi-byte character must count as an invalid
+    // lock (which can be cleaned up), not as "no lock".
+    let Ok(contents) = fs::read(&path) else {
         return Ok(None);
     };
-    let record: AuthorityLockRecord = serde_json::from_str(&contents)
+    let record: AuthorityLockRecord = serde_json::from_slice(&contents)
         .map_err(|err| format!("lock json invalid at {}: {err}", path.display()))?;
     Ok(Some(record))
 }
